@@ -1,3 +1,4 @@
+import NfpmModel.Lemmas.RpmRelLemmas
 import NfpmModel.Spec.MetaSpec
 import NfpmModel.Lemmas.PathLemmas
 import NfpmModel.Lemmas.VersionLemmas
@@ -464,6 +465,63 @@ example :
     = [ { key := b!"Package", first := b!"foo" }, { key := b!"Depends", first := b!"bash, libc6 (>= 2.30)" },
         { key := b!"Description", first := b!"synopsis", conts := [b!"line two", [], b!"after blank"] },
         { key := b!"Vcs-Git", first := b!"git://x" } ] := by decide
+
+/-! ### rpm: relations in the header -/
+
+/-- **rpm: a relation survives the trip through rpmpack's parser**: `name`, `name op version` with op one of
+    <, >, =, <=, >= parse to exactly that name, that version and the sense bits of that operator -/
+theorem rpm_relation_roundtrip (r : RpmRel.Rel) (w : RpmRel.WfRel r) : RpmRel.parse (RpmRel.render r) = some r :=
+  RpmRel.parse_render r w
+
+/-- **rpm: every configured relation, once, in the configured order**: a list of well-formed relations is accepted; what
+    is kept is a sub-list of the configured list (order preserved, nothing invented), without repetitions, and contains
+    every configured relation -/
+theorem rpm_relations_complete_in_order (rs : List RpmRel.Rel) (h : ∀ r ∈ rs, RpmRel.WfRel r) :
+    ∃ kept, RpmRel.toRelations (rs.map RpmRel.render) [] = some kept ∧ kept.Sublist rs ∧ kept.Nodup ∧ ∀ r ∈ rs, r ∈ kept := by
+  obtain ⟨t, hsub, heq, hall⟩ := RpmRel.foldl_addIfMissing_spec rs []
+  refine ⟨rs.foldl RpmRel.addIfMissing [], RpmRel.toRelations_render rs [] h, ?_, RpmRel.foldl_addIfMissing_nodup rs [] List.nodup_nil, ?_⟩
+  · rw [heq]; simpa using hsub
+  · rw [heq]; exact hall
+
+/-- **rpm: a category of relations reads back from the header** – names, versions and sense flags as three columns
+    under the category's own tags; a category without relations has no entries at all -/
+theorem rpm_relations_read_back (nameTag verTag flagTag : Nat) (rs : List RpmRel.Rel) (hdr : List RpmHdr.Entry)
+    (ok : RpmRel.RelsOK rs)
+    (hnone : rs = [] → RpmFiles.lookupTag nameTag hdr = none ∧ RpmFiles.lookupTag verTag hdr = none ∧ RpmFiles.lookupTag flagTag hdr = none)
+    (hsome : ∀ e ∈ RpmRel.relEntries nameTag verTag flagTag rs, RpmFiles.lookupTag e.tag hdr = some e) :
+    RpmRel.readRels nameTag verTag flagTag hdr = some rs :=
+  RpmRel.readRels_relEntries nameTag verTag flagTag rs hdr ok hnone hsome
+
+/-- the package provides itself: `name = version-release` is among the provides whatever is configured -/
+theorem rpm_self_provide (n v : Bytes) (p d rc rp s c : List Bytes) (cs : RpmRel.Cats)
+    (h : RpmRel.cats n v p d rc rp s c = some cs) : { name := n, version := v, sense := 8 } ∈ cs.provides := by
+  unfold RpmRel.cats at h
+  split at h
+  · simp only [Option.some.injEq] at h
+    subst h
+    simp only [RpmRel.addIfMissing]
+    split
+    · assumption
+    · simp
+  · cases h
+
+/-- the spellings rpmpack understands, and two it does not (kernel-evaluated): an operator run that is not in the table
+    fails the packaging; a Debian-style `name (op version)` is taken as a name with the parenthesised text as version and
+    no comparison -/
+example :
+    RpmRel.parse (b!"libfoo >= 1.2-3") = some { name := b!"libfoo", version := b!"1.2-3", sense := 12 }
+    ∧ RpmRel.parse (b!"libfoo<2") = some { name := b!"libfoo", version := b!"2", sense := 2 }
+    ∧ RpmRel.parse (b!"libfoo") = some { name := b!"libfoo" }
+    ∧ RpmRel.parse (b!"(libfoo or libbar)") = some { name := b!"(libfoo or libbar)" }
+    ∧ RpmRel.parse (b!"libfoo == 1") = none ∧ RpmRel.parse (b!"libfoo =< 1") = none
+    ∧ RpmRel.parse (b!"libfoo (>= 1.2)") = some { name := b!"libfoo", version := b!"(>= 1.2)", sense := 0 } := by
+  decide +kernel
+
+/-- non-vacuity: a relation with a constraint meets `WfRel` -/
+example : RpmRel.WfRel { name := b!"libfoo", version := b!"1.2-3", sense := 12 } :=
+  { name_chars := by decide, name_head := by decide, sense := by decide, bare := by decide,
+    version_head := by intro c h; cases h; decide, version_line := by decide }
+
 
 /-- the translator regenerated, on this run and from the working tree, every table this property is tied through
     (when an extraction fails the reviewed table stands in so that the model still compiles, and this stops checking) -/
